@@ -360,6 +360,14 @@ static void ares_rand_bytes_fetch(ares_rand_state *state, unsigned char *buf,
 
 void ares_rand_bytes(ares_rand_state *state, unsigned char *buf, size_t len)
 {
+#ifdef CARES_VERIF_HOOKS
+  if (ares_verif_hooks.rand_bytes != NULL) {
+    int purpose             = ares_verif_rand_purpose;
+    ares_verif_rand_purpose = ARES_VERIF_RAND_UNTAGGED;
+    ares_verif_hooks.rand_bytes(purpose, buf, len);
+    return;
+  }
+#endif
   /* See if we need to refill the cache to serve the request, but if len is
    * excessive, we're not going to update our cache or serve from cache */
   if (len > state->cache_remaining && len < sizeof(state->cache)) {
